@@ -218,7 +218,8 @@ def bounded(ctx):
             for call in range(3):
                 evals += 1
                 got, prod, w = ba.run_assembly(v, ms, id="prod", name="prod")
-                results.append((got[0], str(prod.seq) if prod is not None else None, got[1:] if got[0] != "product" else None))
+                results.append((got[0], str(prod.seq) if prod is not None else None, got[1:] if got[0] != "product" else None,
+                                sorted((f.type, str(f.location), repr(sorted(f.qualifiers.items()))) for f in prod.features) if prod is not None else None))
                 after = [deep_snapshot(x.record) for x in inputs]
                 for x, b, a in zip(inputs, before, after):
                     if a != b:
